@@ -28,7 +28,12 @@ invariant — no volume that a refresh round saw full and that stayed full is of
 `NoReoffer` that excludes exactly that finding), `lookup_exact_all_partial` (`EcInv`: the EC shard map lists
 exactly the connected servers holding each shard, hence Topology.Lookup is exact for EC volumes too, under
 the hypothesis that no server disconnects while it has EC shards registered = the open finding
-UnRegisterDataNode/ec-shards-of-disconnected-server-stay-in-lookup; witness `ec_stays_after_disconnect`).
+UnRegisterDataNode/ec-shards-of-disconnected-server-stay-in-lookup; witness `ec_stays_after_disconnect`),
+`no_new_offer_while_oversized` / `register_remembers_oversized` / `oversized_never_offered_events` (the
+size-limit conjunct for replicas that REGISTER at or over the limit, all layout event sequences: judge class
+RegisterVolume/oversized-not-remembered), `full_heartbeat_lookup_exact` / `empty_full_heartbeat_unregisters`
+(after a full heartbeat the location lists contain the server exactly for the reported volume ids, none
+after a heartbeat without volumes: the judge clauses that compare lookups / copies with the servers' reports).
 -/
 import SwV.Model.C11
 import SwV.Spec.C11
@@ -2830,6 +2835,293 @@ theorem ec_stays_after_disconnect :
     lookup st 6 = [1, 1] ∧ st.conn 1 = false := by decide
 
 end EcShardMap
+
+/-! ## the size-limit conjunct for replicas that REGISTER at or over the limit
+
+The judge clause `RegisterVolume/oversized-not-remembered`: a volume id is never PUT INTO the writables
+while a replica that registered at/over the size limit (and has stayed registered so) is known.  On the
+model this is the pair "RegisterVolume always remembers" (the deferred rememberOversizedVolume runs on
+every path, also when the replica loop returns early at a read-only or unknown replica) and
+"ensureCorrectWritables never adds a remembered volume", for ALL sequences of layout events. -/
+
+theorem applyEv_limit (st : St) (ev : Ev) : (applyEv st ev).limit = st.limit := by
+  cases ev with
+  | register v s =>
+    simp only [applyEv, registerLayout, ensureWritables, setWritable, removeWritable, registerVolume]
+    repeat' split
+    all_goals first | rfl | exact (touchKey_wr st v.key).2.2.2.2.2
+  | unregister v s =>
+    simp only [applyEv, unregisterLayout, ensureWritables, setWritable, removeWritable]
+    repeat' split
+    all_goals first | rfl | exact (touchKey_wr st v.key).2.2.2.2.2
+  | ensure k vid =>
+    simp only [applyEv, ensureWritables, setWritable, removeWritable]
+    repeat' split
+    all_goals first | rfl | exact (touchKey_wr st k).2.2.2.2.2
+  | capacityFull k vid => exact (touchKey_wr st k).2.2.2.2.2
+
+theorem ensureWritables_ov (st : St) (k : Key) (vid : Nat) : (ensureWritables st k vid).ov = st.ov := by
+  simp only [ensureWritables, setWritable, removeWritable]
+  repeat' split
+  all_goals rfl
+
+/-- ensureCorrectWritables adds a volume id to the writables only when no oversized replica is remembered -/
+theorem ensureWritables_no_new_offer (st : St) (k0 : Key) (vid0 : Nat) (k : Key) (vid : Nat)
+    (hw : vid ∉ st.wr k) (ho : st.ov k vid ≠ []) : vid ∉ (ensureWritables st k0 vid0).wr k := by
+  by_cases e : k0 = k ∧ vid0 = vid
+  · obtain ⟨rfl, rfl⟩ := e
+    have hne : (st.ov k0 vid0).isEmpty = false := by
+      cases h : st.ov k0 vid0 with
+      | nil => exact absurd h ho
+      | cons a l => rfl
+    simp only [ensureWritables, hne, removeWritable]
+    split
+    · simpa using hw
+    · simp only [updK, if_true]
+      exact fun h => hw (List.mem_of_mem_erase h)
+  · simp only [ensureWritables, setWritable, removeWritable]
+    repeat' split
+    all_goals first
+      | exact hw
+      | (simp only [updK]; split
+         · rename_i hk; subst hk
+           first
+             | (intro h; rcases List.mem_append.mp h with h | h
+                · exact hw h
+                · simp at h; exact e ⟨rfl, h.symm⟩)
+             | exact fun h => hw (List.mem_of_mem_erase h)
+         · exact hw)
+
+/-- C11, size-limit conjunct, registration form (layout mechanism, every event): no layout call puts a
+    volume id into the writables while the layout remembers an oversized replica of it -/
+theorem no_new_offer_while_oversized (st : St) (ev : Ev) (k : Key) (vid : Nat)
+    (hw : vid ∉ st.wr k) (ho : (applyEv st ev).ov k vid ≠ []) : vid ∉ (applyEv st ev).wr k := by
+  cases ev with
+  | register v s =>
+    simp only [applyEv, registerLayout] at ho ⊢
+    rw [ensureWritables_ov] at ho
+    apply ensureWritables_no_new_offer _ _ _ _ _ _ ho
+    simp only [registerVolume, (touchKey_wr st v.key).1]
+    split
+    · simp only [updK]; split
+      · rename_i hk; subst hk; exact fun h => hw (List.mem_of_mem_erase h)
+      · exact hw
+    · exact hw
+  | unregister v s =>
+    have t := touchKey_wr st v.key
+    cases hl : (touchKey st v.key).locs v.key v.id with
+    | none =>
+      simp only [applyEv, unregisterLayout, hl]; rw [t.1]; exact hw
+    | some l =>
+      by_cases hc : l.contains s = true
+      · by_cases he : (l.erase s).isEmpty = true
+        · simp only [applyEv, unregisterLayout, hl, hc, he, if_true] at ho ⊢
+          rw [ensureWritables_ov] at ho
+          exact ensureWritables_no_new_offer _ _ _ _ _ (by rw [t.1]; exact hw) ho
+        · have he2 : (l.erase s).isEmpty = false := by simpa using he
+          simp only [applyEv, unregisterLayout, hl, hc, he2, if_true, Bool.false_eq_true, if_false] at ho ⊢
+          rw [ensureWritables_ov] at ho
+          exact ensureWritables_no_new_offer _ _ _ _ _ (by rw [t.1]; exact hw) ho
+      · have hc2 : l.contains s = false := by simpa using hc
+        simp only [applyEv, unregisterLayout, hl, hc2, Bool.false_eq_true, if_false]; rw [t.1]; exact hw
+  | ensure k0 vid0 =>
+    simp only [applyEv] at ho ⊢
+    rw [ensureWritables_ov] at ho
+    exact ensureWritables_no_new_offer _ _ _ _ _ (by rw [(touchKey_wr st k0).1]; exact hw) ho
+  | capacityFull k0 vid0 =>
+    simp only [applyEv, removeWritable, updK]
+    split
+    · rename_i hk; subst hk; rw [(touchKey_wr st k).1]; exact fun h => hw (List.mem_of_mem_erase h)
+    · rw [(touchKey_wr st k0).1]; exact hw
+
+/-- VolumeLayout.RegisterVolume remembers a replica that registers at or over the limit WHATEVER the
+    read-only state of the replicas (`rememberOversizedVolume` is deferred: it also runs when the replica
+    loop returns early) -/
+theorem register_remembers_oversized (st : St) (v : VInfo) (s : Nat) (h : v.size ≥ st.limit) :
+    s ∈ (applyEv st (.register v s)).ov v.key v.id := by
+  simp only [applyEv, registerLayout, ensureWritables_ov, registerVolume, (touchKey_wr st v.key).2.2.2.2.2, h,
+    updK2, and_self, if_true]
+  exact (mem_setLoc _ s s).mpr (Or.inr rfl)
+
+/-- the events that make the layout forget the replica of `vid` on server `s`: the server unregisters the
+    volume, or registers it again below the limit -/
+def Forgets (limit : Nat) (k : Key) (vid s : Nat) : Ev → Prop
+  | .unregister v s' => v.key = k ∧ v.id = vid ∧ s' = s
+  | .register v s' => v.key = k ∧ v.id = vid ∧ s' = s ∧ v.size < limit
+  | _ => False
+
+theorem oversized_stays_remembered (st : St) (ev : Ev) (k : Key) (vid s : Nat) (h : s ∈ st.ov k vid)
+    (hf : ¬ Forgets st.limit k vid s ev) : s ∈ (applyEv st ev).ov k vid := by
+  cases ev with
+  | register v s' =>
+    simp only [applyEv, registerLayout, ensureWritables_ov, registerVolume, (touchKey_wr st v.key).2.2.2.2.2,
+      (touchKey_wr st v.key).2.2.2.2.1, updK2]
+    split
+    · rename_i hk; obtain ⟨rfl, rfl⟩ := hk
+      split
+      · exact (mem_setLoc _ s' s).mpr (Or.inl h)
+      · rename_i hs
+        by_cases e : s' = s
+        · exact absurd ⟨rfl, rfl, e, by omega⟩ hf
+        · exact (List.mem_erase_of_ne (fun x => e x.symm)).mpr h
+    · exact h
+  | unregister v s' =>
+    simp only [applyEv, unregisterLayout]
+    have t := touchKey_wr st v.key
+    split
+    · rw [t.2.2.2.2.1]; exact h
+    · split
+      · have key : s ∈ updK2 (touchKey st v.key).ov v.key v.id (((touchKey st v.key).ov v.key v.id).erase s') k vid := by
+          simp only [updK2, t.2.2.2.2.1]
+          split
+          · rename_i hk; obtain ⟨rfl, rfl⟩ := hk
+            by_cases e : s' = s
+            · exact absurd ⟨rfl, rfl, e⟩ hf
+            · exact (List.mem_erase_of_ne (fun x => e x.symm)).mpr h
+          · exact h
+        split <;> simp only [ensureWritables_ov] <;> exact key
+      · rw [t.2.2.2.2.1]; exact h
+  | ensure k0 vid0 => simp only [applyEv, ensureWritables_ov, (touchKey_wr st k0).2.2.2.2.1]; exact h
+  | capacityFull k0 vid0 => simp only [applyEv, removeWritable, (touchKey_wr st k0).2.2.2.2.1]; exact h
+
+/-- C11, size-limit conjunct, registration form, for ALL event sequences: a volume id that is not offered
+    when a replica of it is remembered as oversized (in particular: right after that replica registered at
+    or over the limit, `register_remembers_oversized`) is not offered after any sequence of layout events —
+    registrations and removals of other replicas, read-only flips in either direction, refresh rounds —
+    as long as that server neither unregisters the volume nor registers it again below the limit.
+    (`oversized_registered_while_readonly_not_offered` is the model on the history of the judge class
+    RegisterVolume/oversized-not-remembered.) -/
+theorem oversized_never_offered_events (evs : List Ev) : ∀ (st : St) (k : Key) (vid s : Nat), s ∈ st.ov k vid → vid ∉ st.wr k →
+    (∀ ev ∈ evs, ¬ Forgets st.limit k vid s ev) →
+    vid ∉ (evs.foldl applyEv st).wr k ∧ s ∈ (evs.foldl applyEv st).ov k vid := by
+  induction evs with
+  | nil => intro st k vid s h hw _; exact ⟨hw, h⟩
+  | cons ev evs ih =>
+    intro st k vid s h hw hf
+    simp only [List.foldl_cons]
+    have h1 := oversized_stays_remembered st ev k vid s h (hf ev (List.mem_cons_self ..))
+    have h2 := no_new_offer_while_oversized st ev k vid hw (List.ne_nil_of_mem h1)
+    exact ih (applyEv st ev) k vid s h1 h2 (fun e he => by rw [applyEv_limit]; exact hf e (List.mem_cons_of_mem _ he))
+
+/-- non-vacuity: a replica registers over the limit while read-only (single copy), then the read-only
+    flag is cleared (`ensure`), a peer comes and goes: the hypotheses hold and the volume is never offered -/
+example :
+    let k : Key := ⟨0, 0, 0, 0⟩
+    let st := applyEv (init 1000 false 12) (.register ⟨7, 1100, true, false, k⟩ 0)
+    (0 ∈ st.ov k 7 ∧ 7 ∉ st.wr k) ∧
+    (∀ ev ∈ [Ev.ensure k 7, .register ⟨7, 10, false, false, k⟩ 1, .unregister ⟨7, 10, false, false, k⟩ 1],
+      ¬ Forgets st.limit k 7 0 ev) := by
+  refine ⟨by decide, ?_⟩
+  intro ev hev
+  simp only [List.mem_cons, List.mem_nil_iff, or_false] at hev
+  rcases hev with rfl | rfl | rfl <;> simp [Forgets]
+
+/-- the model on the histories of the judge class RegisterVolume/oversized-not-remembered (real `step`):
+    (1) a single-copy volume registers over the limit while read-only, the next full heartbeat clears the
+    flag; (2) replication 001: the peer is read-only when the oversized replica registers, then the peer's
+    flag is cleared.  In both the volume is remembered as oversized and is NOT offered. -/
+theorem oversized_registered_while_readonly_not_offered :
+    let k0 : Key := ⟨0, 0, 0, 0⟩
+    let k1 : Key := ⟨0, 1, 0, 0⟩
+    let a := run (init 1000 false 12)
+      [.conn 0 0 0 5 0, .full 0 [⟨7, 1100, true, false, k0⟩], .full 0 [⟨7, 1100, false, false, k0⟩]]
+    let b := run (init 1000 false 12)
+      [.conn 0 0 0 5 0, .conn 1 0 1 5 0, .full 0 [⟨7, 10, true, false, k1⟩], .full 1 [⟨7, 1000, false, false, k1⟩],
+       .full 0 [⟨7, 10, false, false, k1⟩]]
+    (a.wr k0 = [] ∧ a.ov k0 7 = [0] ∧ enoughCopies a k0 7 = true ∧ isAllWritable a k0 7 = true) ∧
+    (b.wr k1 = [] ∧ b.ov k1 7 = [1] ∧ enoughCopies b k1 7 = true ∧ isAllWritable b k1 7 = true) := by decide
+
+
+/-- the registration form of the size-limit conjunct only speaks of volume ids PUT INTO the writables: an id
+    that is already offered stays offered when a further replica registers at/over the limit under
+    replication-as-minimum (enough copies, all writable, oversized: ensureCorrectWritables merely does not add).
+    Open finding ensureCorrectWritables/oversized-replica-joins-offered-volume
+    (corpus/C11/oversized_replica_joins_offered_volume.ops). -/
+theorem oversized_replica_joins_offered_volume :
+    let k : Key := ⟨0, 0, 0, 0⟩
+    let st := run (init 1000 true 12)
+      [.conn 2 1 1 6 0, .full 2 [⟨1, 10, false, false, k⟩], .conn 1 0 1 7 0, .full 1 [⟨1, 1024, false, false, k⟩]]
+    st.wr k = [1] ∧ st.ov k 1 = [1] ∧ (volOf st 1 1).map (·.size) = some 1024 := by decide
+
+/-! ## a full heartbeat is authoritative: registered = reported
+
+The judge clauses `lookup-returns-server-that-reported-volume-gone` / `writable-without-enough-reported-copies`
+compare the master with what the SERVERS said.  On the model: after a full heartbeat of a connected server
+the volumes registered on it are exactly the volumes the heartbeat lists — in particular none after a
+heartbeat WITHOUT volumes — and by `Inv.locs_iff` so are the location lists (= lookups). -/
+
+theorem updateVolumes_exact {keyOf : Nat → Key} (hk : ∀ vid, (keyOf vid).disk < 2) (s : Nat) (c : Core) (actual : List VInfo)
+    (hv : ∀ v ∈ actual, VOk keyOf c v) (x : Nat) (hx : x < c.nVid + 1) :
+    ((c.updateVolumes s actual).1.vols s (keyOf x).disk x).isSome = true ↔ ∃ a ∈ actual, a.id = x := by
+  obtain ⟨_, s03, _, _⟩ := sweepGone_facts s actual 0 (c.nVid + 1) c
+  obtain ⟨⟨_, s12⟩, s13, _, _⟩ := sweepGone_facts s actual 1 (c.nVid + 1) (c.sweepGone s actual 0 (c.nVid + 1)).1
+  obtain ⟨_, _, _, a4, _, a6, _⟩ := addAll_facts s actual
+    (Core.sweepGone (c.sweepGone s actual 0 (c.nVid + 1)).1 s actual 1 (c.nVid + 1)).1
+  have hn : (c.sweepGone s actual 0 (c.nVid + 1)).1.nVid = c.nVid := (sweepGone_facts s actual 0 (c.nVid + 1) c).1.2
+  constructor
+  · intro h
+    by_cases hany : actual.any (fun a => a.id == x) = true
+    · obtain ⟨a, ha, e⟩ := List.any_eq_true.mp hany
+      exact ⟨a, ha, by simpa using e⟩
+    · have hany : actual.any (fun a => a.id == x) = false := by simpa using hany
+      -- swept on both disks, so it must be new
+      have hnone : (Core.sweepGone (c.sweepGone s actual 0 (c.nVid + 1)).1 s actual 1 (c.nVid + 1)).1.vols s (keyOf x).disk x = none := by
+        rw [s13, s03]
+        have := hk x
+        by_cases e1 : (keyOf x).disk = 1
+        · rw [if_pos ⟨rfl, e1, by omega, hany⟩]
+        · rw [if_neg (fun h => e1 h.2.1), if_pos ⟨rfl, by omega, hx, hany⟩]
+      obtain ⟨v, hv1, hv2, _⟩ := a4 (keyOf x).disk x hnone h
+      exact ⟨v, (a6 v hv1).1, hv2⟩
+  · intro ⟨a, ha, e⟩
+    have := addAll_listed s actual (Core.sweepGone (c.sweepGone s actual 0 (c.nVid + 1)).1 s actual 1 (c.nVid + 1)).1 a ha
+    rw [(hv a ha).1, e] at this
+    exact this
+
+theorem syncFull_toCore (st : St) (s : Nat) (actual : List VInfo) (hc : st.conn s = true) :
+    (syncFull st s actual).toCore = (st.toCore.updateVolumes s actual).1 := by
+  rw [syncFull_eq st s actual hc]
+  exact (evs_core_ecLoc _ _).1
+
+/-- C11, lookups against what the server reported: after a full heartbeat of a connected server `s`, `s` is
+    in the location list of a volume id exactly when the heartbeat lists that id.  After a heartbeat
+    without volumes (`vs = []`) the server is in no location list. -/
+theorem full_heartbeat_lookup_exact {keyOf : Nat → Key} (hk : ∀ vid, (keyOf vid).disk < 2) {st : St} (h : Inv keyOf st)
+    (s : Nat) (vs : List VInfo) (hv : ∀ v ∈ vs, VOk keyOf st.toCore v) (hc : st.conn s = true) (x : Nat) (hx : x < st.nVid + 1) :
+    s ∈ locList (syncFull st s vs) (keyOf x) x ↔ ∃ a ∈ vs, a.id = x := by
+  have hi := inv_full hk h s vs hv
+  rw [hi.locs_iff x s]
+  have e : (syncFull st s vs).toCore = (st.toCore.updateVolumes s vs).1 := syncFull_toCore st s vs hc
+  have e1 : (syncFull st s vs).conn s = true := by
+    show (syncFull st s vs).toCore.conn s = true
+    rw [e, (updateVolumes_conn_nVid st.toCore s vs).1]; exact hc
+  have e2 : (syncFull st s vs).vols = (st.toCore.updateVolumes s vs).1.vols := by
+    show (syncFull st s vs).toCore.vols = _
+    rw [e]
+  rw [e2, updateVolumes_exact hk s st.toCore vs hv x hx]
+  exact ⟨fun h => h.2, fun h => ⟨e1, h⟩⟩
+
+/-- the empty full heartbeat: the server leaves every location list, and (by `WInv`) a volume that is still
+    offered has enough copies among the OTHER servers -/
+theorem empty_full_heartbeat_unregisters {keyOf : Nat → Key} (hk : ∀ vid, (keyOf vid).disk < 2) {st : St} (h : Inv keyOf st)
+    (s : Nat) (hc : st.conn s = true) (x : Nat) (hx : x < st.nVid + 1) :
+    s ∉ locList (syncFull st s []) (keyOf x) x ∧
+    (x ∈ (syncFull st s []).wr (keyOf x) → enoughCopies (syncFull st s []) (keyOf x) x = true) := by
+  constructor
+  · intro hm
+    obtain ⟨a, ha, _⟩ := (full_heartbeat_lookup_exact hk h s [] (fun v hv => by cases hv) hc x hx).mp hm
+    cases ha
+  · intro hw
+    exact (((inv_full hk h s [] (fun v hv => by cases hv)).winv (keyOf x)).2 x hw).1
+
+/-- non-vacuity + the model on the history of the judge classes: two servers hold vid 3 (replication 001),
+    it is offered; server 1 sends a full heartbeat without volumes: lookup = [0], not offered -/
+theorem empty_full_heartbeat_example :
+    let k : Key := ⟨0, 1, 0, 0⟩
+    let st := run (init 1000 false 12)
+      [.conn 0 0 0 5 0, .conn 1 0 1 5 0, .full 0 [⟨3, 10, false, false, k⟩], .full 1 [⟨3, 10, false, false, k⟩]]
+    (st.wr k = [3] ∧ lookup st 3 = [0, 1] ∧ st.conn 1 = true) ∧
+    (lookup (step st (.full 1 [])) 3 = [0] ∧ (step st (.full 1 [])).wr k = []) := by decide
 
 /-! ## T1 bridges: facts regenerated from the source by `extract` (props/C11/extract.json → `SwV.Gen.C11`)
 
